@@ -82,6 +82,9 @@ def fastdiag_solve(ctx, dim, shape, dx, vector):
     f = ctx.array("rhs", fs)
     u = ctx.array("solution_prior", fs)
     bound_vars(ctx, f)
+    if not ctx.sym:
+        sb0 = ctx.array("spectral_buf", solver.spectral_field_buffer.shape)
+        solver.spectral_field_buffer[...] = sb0
     if ctx.sym:
         # reachability witness on the real numeric build: solve() must return normally with a real result
         rng = np.random.default_rng(1)
@@ -114,6 +117,22 @@ def fastdiag_solve(ctx, dim, shape, dx, vector):
         ctx.replay_result = (not ok, f"solve returned, dtype={u.dtype}")
         return
     ctx.same_array("rhs_untouched", f, f0)
+    # history independence, two-copy form: same rhs, different arbitrary buffer / prior solution contents
+    with warnings.catch_warnings():
+        warnings.simplefilter("ignore")
+        if dim == 2:
+            solver_b = spne.FastDiagPoissonSolver2D(grid_size_y=shape[0], grid_size_x=shape[1], dx=ctx.real_t(dx), real_t=ctx.real_t)
+        else:
+            solver_b = spne.FastDiagPoissonSolver3D(grid_size_z=shape[0], grid_size_y=shape[1], grid_size_x=shape[2], dx=ctx.real_t(dx), real_t=ctx.real_t)
+    ub = ctx.array("solution_prior_B", fs)
+    if ctx.sym:
+        _symbolise_solver(ctx, solver_b)
+        solver_b.spectral_field_buffer = ctx.array("spectral_buf_B", solver_b.spectral_field_buffer.shape)
+    else:
+        sb = ctx.array("spectral_buf_B", solver_b.spectral_field_buffer.shape)
+        solver_b.spectral_field_buffer[...] = sb
+    (solver_b.vector_field_solve(solution_vector_field=ub, rhs_vector_field=f) if vector else solver_b.solve(solution_field=ub, rhs_field=f))
+    ctx.eq_array("independent_of_prior_buffers_and_solution", u, ub)
     comps = [(u[i], f0[i]) for i in range(3)] if vector else [(u, f0)]
     n = int(np.prod(shape))
     dxv = float(ctx.real_t(dx))
@@ -121,8 +140,6 @@ def fastdiag_solve(ctx, dim, shape, dx, vector):
         if ctx.sym:
             from symsopht import sym as S
 
-            bad = [v for v in S.free_vars(list(np.asarray(uc).reshape(-1))) if not v.args[0].startswith("rhs[")]
-            ctx.claim(f"independent_of_prior_buffers_and_solution:comp{ci}", len(bad) == 0)
             if vector:
                 others = [v for v in S.free_vars(list(np.asarray(uc).reshape(-1))) if not v.args[0].startswith(f"rhs[{ci},")]
                 ctx.claim(f"component_{ci}_depends_only_on_rhs_component_{ci}", len(others) == 0)
